@@ -61,11 +61,21 @@ impl Server {
             .collect()
     }
     pub fn ask(&mut self, engine: &str, focus: &str, size: u32, flags: &str, bytes: &[u8]) -> Option<Answer> {
-        let f = if focus.is_empty() { "-" } else { focus };
-        if writeln!(self.inp, "{} {} {} {} {}", engine, f, size, flags, hex(bytes)).is_err() {
+        if !self.send(engine, focus, size, flags, &hex(bytes)) {
             return None;
         }
-        let _ = self.inp.flush();
+        self.recv(flags)
+    }
+    /// Requests are pipelined: `send` to every server first, then `recv` from each, so that the
+    /// feature sets execute one program concurrently
+    pub fn send(&mut self, engine: &str, focus: &str, size: u32, flags: &str, hexbytes: &str) -> bool {
+        let f = if focus.is_empty() { "-" } else { focus };
+        if writeln!(self.inp, "{} {} {} {} {}", engine, f, size, flags, hexbytes).is_err() {
+            return false;
+        }
+        self.inp.flush().is_ok()
+    }
+    pub fn recv(&mut self, flags: &str) -> Option<Answer> {
         let mut line = String::new();
         if self.out.read_line(&mut line).ok()? == 0 {
             return None;
@@ -104,17 +114,45 @@ impl Drop for Server {
     }
 }
 
+/// One program to every server (pipelined); a dead server is an error naming its feature set
+fn ask_all(servers: &mut [Server], engine: &str, focus: &str, size: u32, bytes: &[u8]) -> Result<Vec<Answer>, String> {
+    let hx = hex(bytes);
+    let sent: Vec<bool> = servers.iter_mut().map(|s| s.send(engine, focus, size, "m", &hx)).collect();
+    let mut out = Vec::with_capacity(servers.len());
+    let mut dead = None;
+    for (s, ok) in servers.iter_mut().zip(sent) {
+        // read every answer even after a failure, so that the surviving servers stay in step
+        match if ok { s.recv("m") } else { None } {
+            Some(a) => out.push(a),
+            None => {
+                if dead.is_none() {
+                    dead = Some(format!("feature set [{}]: process died while executing the program", s.name));
+                }
+            }
+        }
+    }
+    match dead {
+        Some(m) => Err(m),
+        None => Ok(out),
+    }
+}
+
 /// Compare all servers on one program.  Ok(classes) or Err(message)
-pub fn compare(servers: &mut [Server], engine: &str, focus: &str, size: u32, bytes: &[u8]) -> Result<(Vec<String>, u64), String> {
+pub fn compare(servers: &mut [Server], engine: &str, focus: &str, size: u32, bytes: &[u8]) -> Result<(Vec<String>, Vec<String>), String> {
     let mut first: Option<(String, u64, String)> = None;
     let mut classes = Vec::new();
-    let mut nviol_any = 0;
-    for s in servers.iter_mut() {
-        let a = match s.ask(engine, focus, size, "m", bytes) {
-            Some(a) => a,
-            None => return Err(format!("feature set [{}]: process died while executing the program", s.name)),
-        };
-        nviol_any += a.nviol;
+    // monitor reports that do not decide C18 (rule names, distinct per program): with equal traces
+    // they concern only what happens to closures deferred after the Stakker is gone, which is
+    // documented to differ per deferrer (the inline deferrers keep them until the last handle goes)
+    let mut ignored: Vec<String> = Vec::new();
+    let answers = ask_all(servers, engine, focus, size, bytes)?;
+    for (s, a) in servers.iter().zip(answers) {
+        for vtext in a.first.split(" ;; ").filter(|v| !v.is_empty()) {
+            let rule = vtext.splitn(2, '[').nth(1).unwrap_or("?").splitn(2, ']').next().unwrap_or("?").to_string();
+            if !ignored.contains(&rule) {
+                ignored.push(rule);
+            }
+        }
         // a monitor rule that decides C18 itself (e.g. leftovers of a dropped Stakker executed by a
         // later one, which only some deferrers can even exhibit)
         for vtext in a.first.split(" ;; ") {
@@ -144,20 +182,20 @@ pub fn compare(servers: &mut [Server], engine: &str, focus: &str, size: u32, byt
             }
         }
     }
-    Ok((classes, nviol_any))
+    Ok((classes, ignored))
 }
 
 /// C20: every feature set that includes `logger` runs the program with a recording logger
-pub fn logger_check(servers: &mut [Server], focus: &str, size: u32, bytes: &[u8]) -> Result<(Vec<String>, u64), String> {
+pub fn logger_check(servers: &mut [Server], focus: &str, size: u32, bytes: &[u8]) -> Result<(Vec<String>, Vec<String>), String> {
     let mut classes = Vec::new();
-    let mut n = 0;
-    for s in servers.iter_mut() {
-        let a = match s.ask("vm", focus, size, "m", bytes) {
-            Some(a) => a,
-            None => return Err(format!("feature set [{}]: process died while executing the program", s.name)),
-        };
-        n += a.nviol;
-        for v in a.first.split(" ;; ") {
+    let mut n: Vec<String> = Vec::new();
+    let answers = ask_all(servers, "vm", focus, size, bytes)?;
+    for (s, a) in servers.iter().zip(answers) {
+        for v in a.first.split(" ;; ").filter(|v| !v.is_empty()) {
+            let rule = v.splitn(2, '[').nth(1).unwrap_or("?").splitn(2, ']').next().unwrap_or("?").to_string();
+            if !n.contains(&rule) {
+                n.push(rule);
+            }
             let mut it = v.splitn(2, '|');
             let props = it.next().unwrap_or("");
             if props.split('+').any(|p| p == "C20") {
@@ -197,10 +235,10 @@ pub fn worker(a: &[String]) -> i32 {
         nt: HashSet<u64>,
         classes: BTreeMap<String, u64>,
         samples: Vec<Value>,
-        monitor_viol: u64,
+        monitor_viol: BTreeMap<String, u64>,
         failed: bool,
     }
-    let st = RefCell::new(St { evals: 0, nt: HashSet::new(), classes: BTreeMap::new(), samples: Vec::new(), monitor_viol: 0, failed: false });
+    let st = RefCell::new(St { evals: 0, nt: HashSet::new(), classes: BTreeMap::new(), samples: Vec::new(), monitor_viol: BTreeMap::new(), failed: false });
     let mut runner = TestRunner::new(Config {
         cases,
         rng_seed: RngSeed::Fixed(wseed),
@@ -220,8 +258,8 @@ pub fn worker(a: &[String]) -> i32 {
             Ok((classes, nviol)) => {
                 if !s.failed {
                     s.evals += 1;
-                    if nviol > 0 {
-                        s.monitor_viol += 1;
+                    for r in &nviol {
+                        *s.monitor_viol.entry(r.clone()).or_insert(0) += 1;
                     }
                     for c in &classes {
                         *s.classes.entry(c.clone()).or_insert(0) += 1;
@@ -255,7 +293,7 @@ pub fn worker(a: &[String]) -> i32 {
         "classes": s.classes,
         "samples": s.samples,
         "feature_sets": nservers,
-        "programs_with_monitor_violations_in_all_sets_alike": s.monitor_viol,
+        "monitor_reports_not_deciding_this_property": s.monitor_viol,
     });
     let mut nt: Vec<u64> = s.nt.drain().collect();
     nt.sort();
@@ -283,9 +321,9 @@ pub fn worker(a: &[String]) -> i32 {
 
 pub fn run_leg(prop: &str, idx: usize, thorough: bool, deadline: std::time::Instant, logger_mode: bool) -> LegResult {
     let total: u32 = if logger_mode {
-        if thorough { 2_000_000 } else { 160_000 }
-    } else if thorough { 400_000 } else { 40_000 };
-    let nw = 8u32;
+        if thorough { 8_000_000 } else { 480_000 }
+    } else if thorough { 3_000_000 } else { 160_000 };
+    let nw = if thorough { 16u32 } else { 8u32 };
     let outdir = Path::new(VERIF).join(format!("build/work/{}-{}", prop, idx));
     let _ = fs::remove_dir_all(&outdir);
     fs::create_dir_all(&outdir).unwrap();
@@ -351,8 +389,15 @@ pub fn run_leg(prop: &str, idx: usize, thorough: bool, deadline: std::time::Inst
                     }
                 }
                 res.extra.insert("feature_sets".into(), v["feature_sets"].clone());
-                let e = res.extra.entry("programs_with_monitor_violations".into()).or_insert(json!(0));
-                *e = json!(e.as_u64().unwrap_or(0) + v["programs_with_monitor_violations_in_all_sets_alike"].as_u64().unwrap_or(0));
+                // programs per rule name whose monitor report did not decide this property (equal traces:
+                // only closures deferred after the Stakker was gone, documented to differ per deferrer)
+                if let Some(m) = v["monitor_reports_not_deciding_this_property"].as_object() {
+                    let e = res.extra.entry("programs_with_monitor_reports_not_deciding_this_property".into()).or_insert(json!({}));
+                    for (k, x) in m {
+                        let cur = e[k].as_u64().unwrap_or(0);
+                        e[k] = json!(cur + x.as_u64().unwrap_or(0));
+                    }
+                }
                 if let Some(x) = v.get("violation") {
                     res.violations.push((x["replay"].as_str().unwrap().to_string(), x["message"].as_str().unwrap().to_string()));
                 }
